@@ -28,7 +28,7 @@ DYN_IDS = ['R1', 'R2', 'R10', 'G1', 'Vs', 'Vq', 'V1', 'Is', 'Iq', 'I1', 'A', 'B'
 
 
 def dyn_circuit(rng, max_nodes=6, lossy=0.0, sources=('dc_voltage_source', 'dc_current_source', 'dc_voltage_source', 'dc_current_source',
-                                                     'ac_voltage_source', 'periodic_voltage_source')):
+                                                     'ac_voltage_source', 'periodic_voltage_source', 'ac_current_source', 'periodic_current_source')):
     """RLC + ideal DC-type sources; retried until non-degenerate (exact)."""
     for _ in range(60):
         cd = GC.random_circuit(rng, max_nodes=max_nodes, max_comps=9, passives=['resistor', 'resistor', 'conductance'], n_reactive=(1, 4),
@@ -36,6 +36,8 @@ def dyn_circuit(rng, max_nodes=6, lossy=0.0, sources=('dc_voltage_source', 'dc_c
         for c in cd['components']:                  # a DC source whose nominal value is 0 is still an input of the dynamic model
             if c['ctor'] == 'dc_voltage_source' and rng.random() < 0.15:
                 c['args']['V'] = 0.0
+            if c['ctor'] == 'dc_current_source' and rng.random() < 0.15:
+                c['args']['I'] = 0.0
         ok, _ = dynamics.non_degenerate(cd)
         if ok:
             return cd
@@ -69,7 +71,9 @@ def build_models(cd):
     from CircuitCalculator.Circuit.circuit import transform_circuit
     from CircuitCalculator.Network.NodalAnalysis.state_space_model import nodal_state_space_model
     circ = circdesc.to_lib(cd)
-    net = transform_circuit(circ, w=0)
+    # the network the library builds its dynamic model from: every source is an input whatever its nominal amplitude / frequency
+    import CircuitCalculator.Circuit.circuit as cmod
+    net = cmod.input_network(circ) if hasattr(cmod, 'input_network') else transform_circuit(circ, w=0)
     cv = {c.id: float(c.value['C']) for c in circ.components if c.type == 'capacitor'}
     lv = {c.id: float(c.value['L']) for c in circ.components if c.type == 'inductance'}
     ssm = nodal_state_space_model(net, c_values=cv, l_values=lv)
